@@ -229,7 +229,7 @@ func (w *World) newMetaKey() crypto.PrivKey {
 type NonValidating struct{}
 
 func (NonValidating) VerifyAcceptor(rec *consensusproto.RawRecord) error { return nil }
-func (NonValidating) ShouldValidate() bool                              { return false }
+func (NonValidating) ShouldValidate() bool                               { return false }
 
 // Wrap attaches the CID to a raw record.
 func Wrap(raw *consensusproto.RawRecord) (*consensusproto.RawRecordWithId, error) {
@@ -445,7 +445,8 @@ func (w *World) Legal(in Intent) bool {
 		return ap == None && iv != nil && iv.Live && !iv.Open && !pend && !pendL
 	case "accept":
 		_, ok := w.PendingJoin[in.Target]
-		return CanManage(ap) && ok && in.Perm != Owner && in.Perm != None && (in.Perm != Admin || ap == Owner)
+		// (approving the stale request of an account that became a member meanwhile is refused since fix 4f5c38e)
+		return CanManage(ap) && ok && tp == None && in.Perm != Owner && in.Perm != None && (in.Perm != Admin || ap == Owner)
 	case "decline":
 		_, ok := w.PendingJoin[in.Target]
 		return CanManage(ap) && ok
